@@ -72,6 +72,7 @@ Inductive screen_arm : Set :=
 | ArmAllow (cs : list N)                      (* 'a' | 'b' => {} *)
 | ArmReject (k : screen_err) (cs : list N)    (* 'a' | 'b' => return Err((Error::K(ch), ..)) *)
 | ArmControl (k : screen_err)                 (* ch if ch.is_control() => return Err(..) *)
+| ArmAsciiControl (k : screen_err)            (* ch if ch.is_ascii_control() => return Err(..) *)
 | ArmWild.                                    (* _ => {} *)
 
 Record span : Set := { off : N; slen : N }.
